@@ -863,6 +863,12 @@ class EventBus:
 
     async def _run_loop(self) -> None:
         """Main event processing loop"""
+        # the run loop task copies the context of whoever first dispatched to this bus; if that was a handler,
+        # drop the inherited handler/lock markers so this task takes the global lock like every other run loop
+        holds_global_lock.set(False)
+        inside_handler_context.set(False)
+        _current_event_context.set(None)
+        _current_handler_id_context.set(None)
         try:
             while self._is_running:
                 try:
